@@ -32,7 +32,7 @@ def cumops_(input, dim, ops):
     assert dim != -1 or dim != v.shape[-1], "Invalid dim"
     if L == 0: # nothing to accumulate along an empty dimension
         return v
-    for i in torch.pow(2, torch.arange(int(math.log2(L))+1, device=v.device, dtype=torch.int64)):
+    for i in torch.pow(2, torch.arange((L - 1).bit_length(), device=v.device, dtype=torch.int64)):
         index = torch.arange(i, L, device=v.device, dtype=torch.int64)
         v.index_copy_(dim, index, ops(v.index_select(dim, index-i), v.index_select(dim, index)))
     return v
